@@ -238,6 +238,10 @@ impl Cfg {
             }
         }
 
+        for (order, node) in nodes.iter().enumerate() {
+            node.set_order(order);
+        }
+
         Ok(Cfg {
             nodes,
             label_function_map: HashMap::new(),
@@ -260,7 +264,7 @@ impl Cfg {
         let mut queue = VecDeque::new();
         let mut ranges = Vec::new();
         // push the previous nodes onto the queue
-        queue.extend(node.prevs().clone());
+        queue.extend(CfgNode::in_program_order(&node.prevs()));
 
         // keep track of visited nodes
         #[allow(clippy::mutable_key_type)]
@@ -281,7 +285,7 @@ impl Cfg {
                     continue;
                 }
             }
-            queue.extend(prev.prevs().clone().into_iter());
+            queue.extend(CfgNode::in_program_order(&prev.prevs()));
         }
         ranges
     }
@@ -293,7 +297,7 @@ impl Cfg {
         let mut ranges = Vec::new();
         // push the next nodes onto the queue
 
-        queue.extend(node.nexts().clone());
+        queue.extend(CfgNode::in_program_order(&node.nexts()));
 
         // keep track of visited nodes
         #[allow(clippy::mutable_key_type)]
@@ -325,7 +329,7 @@ impl Cfg {
                 break;
             }
 
-            queue.extend(next.nexts().clone().into_iter());
+            queue.extend(CfgNode::in_program_order(&next.nexts()));
         }
         ranges
     }
